@@ -9,6 +9,10 @@ use super::*;
 #[kani::stub(core::fmt::write, stub_fmt_write)]
 #[kani::stub(core::panicking::panic_nounwind, stub_pn)]
 #[kani::stub(core::panicking::panic_nounwind_fmt, stub_pnf)]
+#[kani::stub(crate::inflate::State::len_and_friends, stub_laf_suspends)]
+#[kani::stub(crate::inflate::writer::Writer::copy_match, stub_copy_match_unreachable)]
+#[kani::stub(crate::inflate::writer::Writer::extend_from_window, stub_efw_unreachable)]
+#[kani::stub(<[u16]>::fill, stub_fill_unreachable)]
 fn ki5e_check_zlib() {
     let input: [u8; 5] = kani::any();
     let n_in: usize = kani::any();
@@ -71,6 +75,10 @@ fn ki5e_check_zlib() {
 #[kani::stub(core::fmt::write, stub_fmt_write)]
 #[kani::stub(core::panicking::panic_nounwind, stub_pn)]
 #[kani::stub(core::panicking::panic_nounwind_fmt, stub_pnf)]
+#[kani::stub(crate::inflate::State::len_and_friends, stub_laf_suspends)]
+#[kani::stub(crate::inflate::writer::Writer::copy_match, stub_copy_match_unreachable)]
+#[kani::stub(crate::inflate::writer::Writer::extend_from_window, stub_efw_unreachable)]
+#[kani::stub(<[u16]>::fill, stub_fill_unreachable)]
 fn ki5e_length_gzip() {
     let input: [u8; 5] = kani::any();
     let n_in: usize = kani::any();
@@ -108,14 +116,20 @@ fn ki5e_length_gzip() {
     core::mem::forget(state);
 }
 
-/// gzip `Check` step with the CRC-32 folded over this call's output; the CRC implementation is the real generic
-/// one, the running value is symbolic, the 2 output bytes symbolic, reference = bitwise CRC-32.
+/// gzip `Check` step: the CRC folded over this call's output onto the running value must equal the little-endian
+/// trailer, then ISIZE.  The braid kernel is replaced by a cheap byte-wise fold (which bytes, which start value, which
+/// order is the subject; braid == CRC-32 is decided by C09's harnesses).
 #[kani::proof]
-#[kani::unwind(20)]
+#[kani::unwind(12)]
+#[kani::stub(crate::crc32::braid::crc32_braid, stub_braid_model)]
 #[kani::stub(crate::inflate::inftrees::inflate_table, stub_table_unreachable)]
 #[kani::stub(core::fmt::write, stub_fmt_write)]
 #[kani::stub(core::panicking::panic_nounwind, stub_pn)]
 #[kani::stub(core::panicking::panic_nounwind_fmt, stub_pnf)]
+#[kani::stub(crate::inflate::State::len_and_friends, stub_laf_suspends)]
+#[kani::stub(crate::inflate::writer::Writer::copy_match, stub_copy_match_unreachable)]
+#[kani::stub(crate::inflate::writer::Writer::extend_from_window, stub_efw_unreachable)]
+#[kani::stub(<[u16]>::fill, stub_fill_unreachable)]
 fn ki5e_check_gzip() {
     let input: [u8; 8] = kani::any();
     let mut out = [0u8; 4];
@@ -124,9 +138,10 @@ fn ki5e_check_gzip() {
     kani::assume(wrap == 2 || wrap == 6);
     let mut state = typed_state(&mut win, wrap, Mode::Check);
     state.gzip_flags = 8;
+    // for gzip the running CRC lives in the folding state; `checksum` only receives the final value
     let ck: u32 = kani::any();
-    state.checksum = ck;
-    state.crc_fold = Crc32Fold::new();
+    state.checksum = kani::any();
+    state.crc_fold = Crc32Fold::new_with_initial(ck);
     state.total = 7;
     unsafe { state.bit_reader.update_slice(input.as_ptr(), 8) };
     state.in_available = 8;
@@ -136,7 +151,7 @@ fn ki5e_check_gzip() {
     state.writer.push(o[1]);
     state.out_available = 4;
     let rc = state.dispatch();
-    let expect = ref_crc32(ck, &o);
+    let expect = model_fold(ck, &o);
     let given = u32::from_le_bytes([input[0], input[1], input[2], input[3]]);
     let isize_ = u32::from_le_bytes([input[4], input[5], input[6], input[7]]);
     if rc == ReturnCode::StreamEnd {
@@ -158,32 +173,33 @@ fn ki5e_check_gzip() {
 #[kani::stub(core::fmt::write, stub_fmt_write)]
 #[kani::stub(core::panicking::panic_nounwind, stub_pn)]
 #[kani::stub(core::panicking::panic_nounwind_fmt, stub_pnf)]
+#[kani::stub(crate::inflate::State::len_and_friends, stub_laf_suspends)]
+#[kani::stub(crate::inflate::writer::Writer::copy_match, stub_copy_match_unreachable)]
+#[kani::stub(crate::inflate::writer::Writer::extend_from_window, stub_efw_unreachable)]
+#[kani::stub(<[u16]>::fill, stub_fill_unreachable)]
 fn ki5e_terminal_modes() {
     let input: [u8; 4] = kani::any();
     let mut out = [0u8; 4];
     let mut win = [0u8; 8 + 64];
-    let m: u8 = kani::any();
-    kani::assume(m < 4);
-    let mode = match m {
-        0 => Mode::Done,
-        1 => Mode::Bad,
-        2 => Mode::Mem,
-        _ => Mode::Sync,
-    };
     let wrap: u8 = kani::any();
     kani::assume(wrap <= 7);
-    let mut state = typed_state(&mut win, wrap, mode);
-    unsafe { state.bit_reader.update_slice(input.as_ptr(), 4) };
-    state.writer = unsafe { Writer::new_uninit(out.as_mut_ptr(), 4) };
-    let rc = state.dispatch();
-    let expect = match m {
-        0 => ReturnCode::StreamEnd,
-        1 => ReturnCode::DataError,
-        2 => ReturnCode::MemError,
-        _ => ReturnCode::StreamError,
-    };
-    assert!(rc == expect);
-    assert!(consumed(&state, input.as_ptr()) == 0 && state.writer.len() == 0);
-    kani::cover!(m == 3);
-    core::mem::forget(state);
+    // the start mode is concrete per call (a symbolic mode makes CBMC walk every arm of the decoder)
+    let mut m = 0;
+    while m < 4 {
+        let (mode, expect) = match m {
+            0 => (Mode::Done, ReturnCode::StreamEnd),
+            1 => (Mode::Bad, ReturnCode::DataError),
+            2 => (Mode::Mem, ReturnCode::MemError),
+            _ => (Mode::Sync, ReturnCode::StreamError),
+        };
+        let mut state = typed_state(&mut win, wrap, mode);
+        unsafe { state.bit_reader.update_slice(input.as_ptr(), 4) };
+        state.writer = unsafe { Writer::new_uninit(out.as_mut_ptr(), 4) };
+        let rc = state.dispatch();
+        assert!(rc == expect);
+        assert!(consumed(&state, input.as_ptr()) == 0 && state.writer.len() == 0);
+        core::mem::forget(state);
+        m += 1;
+    }
+    kani::cover!(wrap == 6);
 }
